@@ -279,7 +279,7 @@ func runReplayTest(p *Program, s *Session, testSrc, dir string) replayOutcome {
 	ovJSON, _ := json.Marshal(map[string]interface{}{"Replace": overlay})
 	ovFile := filepath.Join(dir, "overlay.json")
 	os.WriteFile(ovFile, ovJSON, 0o644)
-	cmd := exec.Command("bash", "-c", fmt.Sprintf("ulimit -v 8000000; cd %s && go test -tags verif -overlay %s -vet=off -count=1 -timeout 60s -run '^TestGovcReplay$' -v ./%s 2>&1", p.RepoDir, ovFile, pkgDir))
+	cmd := exec.Command("bash", "-c", fmt.Sprintf("ulimit -v 8000000; cd %s && go test -tags verif -overlay %s -vet=off -count=1 -timeout 240s -run '^TestGovcReplay$' -v ./%s 2>&1", p.RepoDir, ovFile, pkgDir))
 	cmd.Env = append(os.Environ(), "GOFLAGS=-mod=mod", "GOPROXY=off", "GOSUMDB=off", "GOTOOLCHAIN=local")
 	var out bytes.Buffer
 	cmd.Stdout = &out
@@ -288,7 +288,7 @@ func runReplayTest(p *Program, s *Session, testSrc, dir string) replayOutcome {
 	go func() { done <- cmd.Run() }()
 	select {
 	case <-done:
-	case <-time.After(150 * time.Second):
+	case <-time.After(420 * time.Second):
 		if cmd.Process != nil {
 			cmd.Process.Kill()
 		}
